@@ -214,6 +214,11 @@ func (vm *VirtualMachine) runCodeInternal(ctx context.Context, codeToRun *compil
 	startIP := 0
 	if !resetState {
 		startIP = vm.ip
+		// Results of earlier runs are not needed by the code that follows
+		for i := 0; i <= vm.sp; i++ {
+			vm.stack[i] = nil
+		}
+		vm.sp = -1
 	}
 	vm.activateCode(0, startIP, codeObj)
 
